@@ -328,10 +328,11 @@ class FilterbankBlock(BaseBlock):
         """
         dm_arr = dm + np.linspace(-dm, dm, dmsteps)
         dm_delays = self.header.get_dmdelays(dm_arr, ref_freq=ref_freq)
+        # Dedispersion advances each channel by its delay (shift = -delay)
         if only_valid_samples:
-            new_ar = kernels.dmt_block_valid(self.data, dm_delays)
+            new_ar = kernels.dmt_block_valid(self.data, -dm_delays)
         else:
-            new_ar = kernels.dmt_block(self.data, dm_delays)
+            new_ar = kernels.dmt_block(self.data, -dm_delays)
         return DMTBlock(new_ar, self.header.new_header({"nchans": 1}), dm_arr)
 
     def to_file(self, filename: str | None = None) -> str:
